@@ -9,6 +9,7 @@ mod blocks;
 mod conc;
 mod drip;
 mod graphs;
+mod hdlc;
 mod ring;
 mod sched;
 mod sources;
@@ -21,6 +22,7 @@ fn main() {
         Some("ring") => ring::run(&args),
         Some("blocks") => blocks::run(&args),
         Some("sched") => sched::run(&args),
+        Some("hdlc") => hdlc::run(&args),
         Some("graphs") => graphs::run(&args),
         Some("sources") => sources::run(&args),
         Some("conc") => conc::run(&args),
